@@ -174,6 +174,27 @@ def lifecycle(ctx, prop, builds, num, depth, mcn=3):
     return ledgers
 
 
+def gen_focus(ctx, suffix):
+    """Gen_Dom!FNext under BFS: every sequence of 'suffix' object / lookup-map operations after the scripted prefix."""
+    depth = 7 + suffix
+    cfg = f"""CONSTANTS
+  KeyPool <- SimKeys
+  Scalars <- SimScalars
+  StrBytes <- SimStr
+  MaxSize = 40
+  MaxNodes = 80
+  Depth = {depth}
+INIT GInit
+NEXT FNext
+INVARIANT EmitBeh
+CHECK_DEADLOCK FALSE
+"""
+    # several workers append to one file: lines of these short behaviours stay below the 8 KiB chunk size
+    recs = ctx.tlc_emit("Gen_Dom", cfg=cfg, tag="Gen_Dom_focus", workers=8, timeout=3000, xmx="12g")
+    ctx.log(f"Gen_Dom (object / lookup-map subsystem, exhaustive): {len(recs)} behaviours = scripted prefix + every sequence of {suffix} operations ({ctx.tlc_runs[-1]['wall']}s)")
+    return recs
+
+
 def rows_of(recs):
     rows = []
     for bid, r in enumerate(recs):
@@ -350,6 +371,7 @@ def run_prop(prop, tier, rule):
                           detail="an invariant of spec/Dom.tla is violated in MC_Dom (see TLC output): " + r["out"][-1500:],
                           case=dict(tlc_tail=r["out"][-3000:]), build="tlc", replay=dict(harness="MC_Dom")))
     recs = gen_behaviours(ctx, 60 if q else 1500, 25 if q else 40)
+    recs = recs + gen_focus(ctx, 3 if q else 4)
     rows = rows_of(recs)
     builds = ["asan-avx2", "prod-avx2"] if q else ["asan-avx2", "prod-avx2", "asan-sse", "prod-dyn"]
     fails, ledgers, drift = replay(ctx, rows, builds)
